@@ -430,6 +430,17 @@ def api_variant_cases(rng, tier):
             c2 = fc.Case(c.schema, c.options, list(c.ops), name=c.name + ":create_file", sink=fc.SinkSpec(log=False))
             out.append(c2)
         k += 1
+    # definition levels passed for REQUIRED columns (legal, ignored by the writer: they must change neither the pages
+    # nor where pages are cut): page sizes sweeping the estimate of two, three and four 8-byte batches (+-6 bytes)
+    req = fc.Schema([fc.Column("q", "INT32"), fc.Column("o", "INT32", "OPTIONAL")])
+    for ps in range(64 + 16 - 6, 64 + 32 + 7):
+        c = history(req, fc.Options(codec=fc.CODECS[ps % len(fc.CODECS)], page_size=ps),
+                    [[[[i32(10 * b + j) for j in range(2)] for b in range(6)], [[i32(b), None] for b in range(6)]]],
+                    name=f"api:defs-for-required:{ps}")
+        for op in c.ops:
+            if op.kind == "batch" and op.col == 0:
+                op.force_defs = True
+        out.append(c)
     # list headers: short form up to 14 elements, long form from 15
     for n in (13, 14, 15, 16, 17):
         sch = fc.Schema([fc.Column(f"c{i}", ("INT32", "INT64", "BOOLEAN")[i % 3], "OPTIONAL" if i % 4 == 1 else "REQUIRED") for i in range(n)])
